@@ -1187,7 +1187,24 @@ class TcpDevice:
         self.thread.join(2)
 
 
+class _SetupFailed(RuntimeError):
+    pass
+
+
 def run_tcp_case(case):
+    """the scenario's SET-UP (the first connection of a `preopen` case, made before anything under test runs) can fail on a
+    heavily loaded machine (connect / hang-up wait expiring): that says nothing about the property, so the set-up is tried
+    again with a fresh device (3 attempts) before the scenario counts as 'could not be run'"""
+    last = None
+    for _ in range(3):
+        try:
+            return _run_tcp_case(case)
+        except _SetupFailed as e:
+            last = e
+    raise RuntimeError(str(last))
+
+
+def _run_tcp_case(case):
     from scrapli.driver import AsyncGenericDriver, GenericDriver
     saved = _save_globals()
     dev = TcpDevice(case["end"], neg_burst(case.get("neg", [])), case.get("after", "").encode())
@@ -1204,7 +1221,7 @@ def run_tcp_case(case):
             # depend on how the two threads are scheduled
             o, _ = observe(loop, d.transport.open)
             if o[0] != "ret" or not dev.hungup.wait(10):
-                raise RuntimeError("loopback device: %s" % (o,))
+                raise _SetupFailed("loopback device: %s" % (o,))
         obs = _runtime_ops(loop, d, case["ops"])
     finally:
         try:
